@@ -1,6 +1,7 @@
 pub mod ep;
 pub mod foreign;
 pub mod model;
+pub mod netmodel;
 pub mod pair;
 pub mod wire;
 
@@ -41,6 +42,12 @@ pub fn threads() -> usize {
         .unwrap_or_else(|| std::thread::available_parallelism().map(|n| n.get()).unwrap_or(8))
 }
 
+pub fn cfg_timeout() -> std::time::Duration {
+    std::time::Duration::from_secs(
+        std::env::var("VERIF_CFG_TIMEOUT_S").ok().and_then(|s| s.parse().ok()).unwrap_or(1500),
+    )
+}
+
 pub fn explore_variant(cfg: Cfg, run: &Arc<Run>, dfs: bool) -> Outcome {
     match cfg.variant {
         Variant::V7 => explore::<c7::Connection>(cfg, run, dfs),
@@ -52,12 +59,17 @@ pub fn explore<E: Ep>(cfg: Cfg, run: &Arc<Run>, dfs: bool) -> Outcome {
     let t0 = Instant::now();
     let model = NetModel::<E>::new(cfg, run.clone());
     let before = run.num_violations();
-    let builder = model.checker().threads(threads());
-    if dfs {
+    let limit = cfg_timeout();
+    let builder = model.checker().threads(threads()).timeout(limit);
+    let o = if dfs {
         after(builder.spawn_dfs().join(), run, before, t0)
     } else {
         after(builder.spawn_bfs().join(), run, before, t0)
+    };
+    if t0.elapsed() >= limit {
+        run.cap(&format!("configuration {} stopped by the {} s wall-time cap before the space was exhausted", o.label, limit.as_secs()));
     }
+    o
 }
 
 fn after<E: Ep, C: Checker<NetModel<E>>>(
@@ -177,4 +189,74 @@ pub fn record(run: &Arc<Run>, outcomes: &[Outcome]) {
         samples.push(json!("no sampled path (violation before sampling)"));
     }
     run.set("samples", json!(samples));
+}
+
+pub fn explore_net(cfg: netmodel::NCfg, run: &Arc<Run>) -> Outcome {
+    let t0 = Instant::now();
+    let model = netmodel::NetM::new(cfg, run.clone());
+    let before = run.num_violations();
+    let limit = cfg_timeout();
+    let c = model.checker().threads(threads()).timeout(limit).spawn_bfs().join();
+    if t0.elapsed() >= limit {
+        run.cap(&format!("configuration stopped by the {} s wall-time cap before the space was exhausted", limit.as_secs()));
+    }
+    let states = c.unique_state_count() as u64;
+    let generated = c.state_count() as u64;
+    let max_depth = c.max_depth() as u64;
+    let model = c.model();
+    let label = model.cfg.label();
+    let violated = run.num_violations() > before;
+    let mut validated = 0u64;
+    let mut sample_paths = Vec::new();
+    if !violated {
+        let samples = model.samples.lock().unwrap();
+        for s in samples.iter() {
+            for round in 0..2 {
+                match model.replay(&s.path) {
+                    Some(st) if st.key64() == s.key => {}
+                    other => vp_core::machinery_error(&format!(
+                        "replay divergence (round {}) in {}: path {:?} reached {:?} instead of key {:x}",
+                        round,
+                        label,
+                        s.path.iter().map(|a| a.render()).collect::<Vec<_>>(),
+                        other.map(|s| s.key64()),
+                        s.key
+                    )),
+                }
+            }
+            validated += 1;
+            if sample_paths.len() < 3 && s.path.len() >= 5 {
+                sample_paths.push(json!({"cfg": label, "actions": s.path.iter().map(|a| a.render()).collect::<Vec<_>>()}));
+            }
+        }
+    }
+    let st = &model.stats;
+    let stats = json!({
+        "real_calls_total": st.calls.load(Ordering::Relaxed),
+        "steps_compared_with_reference": st.compared_steps.load(Ordering::Relaxed),
+        "datagrams_compared": st.datagrams_compared.load(Ordering::Relaxed),
+        "connect_events": st.connect_events.load(Ordering::Relaxed),
+        "chunk_events": st.chunk_events.load(Ordering::Relaxed),
+        "ready_events": st.ready_events.load(Ordering::Relaxed),
+        "disconnect_events": st.disconnect_events.load(Ordering::Relaxed),
+        "max_live_peers": st.max_live_peers.load(Ordering::Relaxed),
+    });
+    let o = Outcome {
+        label: label.clone(),
+        states,
+        transitions: generated,
+        suffix_and_sweep_calls: st.calls.load(Ordering::Relaxed),
+        max_depth,
+        validated,
+        wall_s: t0.elapsed().as_secs_f64(),
+        violated,
+        stats,
+        sample_paths,
+    };
+    println!(
+        "  [{}] states={} transitions={} depth={} validated={} {:.1}s{}",
+        o.label, o.states, o.transitions, o.max_depth, o.validated, o.wall_s,
+        if violated { " VIOLATED" } else { "" }
+    );
+    o
 }
